@@ -5,7 +5,7 @@ import copy
 import math
 import random
 
-from pbv import core, loopsuite, scen, shots
+from pbv import core, lattice, loopsuite, scen, shots
 
 
 def scenarios(rng: random.Random, n: int, thorough: bool):
@@ -108,6 +108,7 @@ def run(chk: core.Check, replay=None) -> None:
     core.use_repo()
     thorough = chk.tier == "thorough"
     loopsuite.design(chk, "C04")
+    lattice.replay(chk, "C04", thorough)          # exact spec -> code replay of whole fire() results
     rng = random.Random(chk.seed * 19 + 4)
     scs = scenarios(rng, 165 if thorough else 22, thorough)
     outs, pairs = [], []
